@@ -346,7 +346,7 @@ def generic_ranks(basis, qntot):
 
 
 # ------------------------------------------------------------------------------------------------ schedules
-def make_schedule(rng, ranks, dim, want_equality, big=False):
+def make_schedule(rng, ranks, dim, want_equality, big=False, force_perturbed=False):
     """Procedure [[M, percent], ...] with >= 2 sweeps.  Returns (procedure, kind)."""
     rmax = max(max(ranks), 1)
     r = rng.random()
@@ -370,10 +370,10 @@ def make_schedule(rng, ranks, dim, want_equality, big=False):
         return float(rng.choice([0.0, 0.1, 0.2, 0.4, 0.5]))
 
     import os as _os
-    if rng.random() < (1.0 if _os.environ.get('C08_FORCE_PERTURBED') else 0.2):
+    if force_perturbed or rng.random() < (1.0 if _os.environ.get('C08_FORCE_PERTURBED') else 0.2):
         # unlimited bonds but a perturbation up to the very last sweep (the returned state is assembled with it):
         # nothing is discarded, so the returned state must still be the eigenvector of the last local problem
-        p = float(rng.choice([0.5, 0.8, 0.8]))
+        p = float(rng.choice([0.5, 0.8, 0.8, 0.9]))
         proc = [[HUGE if rng.random() < 0.5 else int(dim), p] for _ in range(int(rng.integers(3, 6)))]
         return proc, "full-perturbed-to-the-end"
     if want_equality or r < 0.5:
@@ -478,7 +478,7 @@ def run_chain_case(ctx):
     specr = float(max(abs(a[0]), abs(a[-1]), 1e-300))
 
     want_equality = big or rng.random() < 0.5
-    proc, sched_kind = make_schedule(rng, ranks, gm.dim, want_equality, big)
+    proc, sched_kind = make_schedule(rng, ranks, gm.dim, want_equality, big, force_perturbed=(ctx.idx % 4 == 1))
     rmax = max(ranks)
     if omega is not None and gm.dim > 600:
         # two-layer environments are (M, w, w, M): keep them small
